@@ -121,17 +121,32 @@ static void out_result(KSI_PolicyVerificationResult *r) {
 	kx_out(" npol=%zu", KSI_RuleVerificationResultList_length(r->policyResults));
 }
 
+#include "kx_rules.h"
 static int cmd_verify(void) {
 	/* verify <c> <s> <policy> [doc=imprint] [lvl=n] [pub=string] [pubfile=slot] [ext=0|1] [api=verifier|withpolicy|datahash|document|sigverify] */
 	KSI_CTX *c = ctxs[atoi(tok[1])]; KSI_Signature *s = sigs[atoi(tok[2])]; const KSI_Policy *pol = policy_by_name(tok[3]);
 	const char *api = kv("api"), *doc = kv("doc"), *pub = kv("pub");
 	KSI_DataHash *dh = NULL; KSI_PublicationData *pd = NULL; KSI_VerificationContext vc; KSI_PolicyVerificationResult *res = NULL; int rc;
+	KSI_Policy *custom = NULL; KSI_Rule rules[40];
+	if (!strncmp(tok[3], "rules:", 6)) {
+		/* user-defined policy: rules:<Rule1>,<Rule2>,... (names without the KSI_VerificationRule_ prefix), all basic rules */
+		char buf[2048], *p, *save = NULL; int n = 0, i;
+		snprintf(buf, sizeof buf, "%s", tok[3] + 6);
+		for (p = strtok_r(buf, ",", &save); p && n < 39; p = strtok_r(NULL, ",", &save)) {
+			for (i = 0; kx_rules[i].name && strcmp(kx_rules[i].name, p); i++);
+			if (!kx_rules[i].name) { kx_out(" stage=unknown-rule"); return -2; }
+			rules[n].type = KSI_RULE_TYPE_BASIC; rules[n].rule = (const void *)kx_rules[i].fn; n++;
+		}
+		rules[n].type = KSI_RULE_TYPE_BASIC; rules[n].rule = NULL;
+		rc = KSI_Policy_create(c, rules, "custom", &custom); if (rc != KSI_OK) { kx_out(" stage=policy-create"); return rc; }
+		pol = custom;
+	}
 	if (!api) api = "verifier";
-	if (doc) { size_t n; unsigned char *b = kx_hexarg(doc, &n); rc = KSI_DataHash_fromImprint(c, b, n, &dh); vh_exact_free(b, n); if (rc != KSI_OK) { kx_out(" stage=dochash"); return rc; } }
-	if (pub) { rc = KSI_PublicationData_fromBase32(c, pub, &pd); if (rc != KSI_OK) { KSI_DataHash_free(dh); kx_out(" stage=pubstring"); return rc; } }
+	if (doc) { size_t n; unsigned char *b = kx_hexarg(doc, &n); rc = KSI_DataHash_fromImprint(c, b, n, &dh); vh_exact_free(b, n); if (rc != KSI_OK) { KSI_Policy_free(custom); kx_out(" stage=dochash"); return rc; } }
+	if (pub) { rc = KSI_PublicationData_fromBase32(c, pub, &pd); if (rc != KSI_OK) { KSI_DataHash_free(dh); KSI_Policy_free(custom); kx_out(" stage=pubstring"); return rc; } }
 	if (!strcmp(api, "verifier")) {
 		rc = KSI_VerificationContext_init(&vc, c);
-		if (rc != KSI_OK) { KSI_DataHash_free(dh); KSI_PublicationData_free(pd); kx_out(" stage=ctxinit"); return rc; }
+		if (rc != KSI_OK) { KSI_DataHash_free(dh); KSI_PublicationData_free(pd); KSI_Policy_free(custom); kx_out(" stage=ctxinit"); return rc; }
 		vc.signature = s; vc.documentHash = dh; vc.docAggrLevel = kvu("lvl", 0); vc.userPublication = pd; vc.extendingAllowed = (int)kvl("ext", 0);
 		if (kv("pubfile")) vc.userPublicationsFile = pubfiles[kvl("pubfile", 0)];
 		rc = KSI_SignatureVerifier_verify(pol, &vc, &res);
@@ -156,7 +171,7 @@ static int cmd_verify(void) {
 	} else if (!strcmp(api, "document")) {
 		size_t n; unsigned char *b = kx_hexarg(kv("data"), &n); rc = KSI_Signature_verifyDocument(s, c, b, n); vh_exact_free(b, n);
 	} else rc = -1;
-	KSI_DataHash_free(dh); KSI_PublicationData_free(pd);
+	KSI_DataHash_free(dh); KSI_PublicationData_free(pd); KSI_Policy_free(custom);
 	return rc;
 }
 
